@@ -106,6 +106,18 @@ func genNetPlan(r *Rand, tier string, focus string, faults bool) NetPlan {
 				NetOp{Node: "L", Op: "merge", Branch: b, Other: "origin/" + b, FF: Pick(r, []string{"", "ff", "ff-only"}), Form: Pick(r, netForms)})
 			continue
 		}
+		if focus == "C10" && r.Chance(0.1) {
+			// a remote branch kept as a local tag: once the tag exists, a later non-forced fetch of the
+			// moved branch onto it must be rejected (the tag guard looks at the destination)
+			b := Pick(r, netBranches)
+			tag := Pick(r, []string{"t1", "t2"})
+			cl := Pick(r, []string{"L", "L2"})
+			p.Ops = append(p.Ops, NetOp{Node: "R", Op: "commit", Branch: b, Variant: r.Intn(6)},
+				NetOp{Node: cl, Op: "fetch", Specs: []NetSpec{{Branch: b, ToTag: tag}}},
+				NetOp{Node: "R", Op: "commit", Branch: b, Variant: r.Intn(6)},
+				NetOp{Node: cl, Op: "fetch", Specs: []NetSpec{{Branch: b, ToTag: tag, Plus: r.Chance(0.2)}, {Branch: b}}})
+			continue
+		}
 		if focus == "C10" && r.Chance(0.5) {
 			// diverge a branch on both sides, then try to move it without / with force
 			b := Pick(r, netBranches)
